@@ -37,6 +37,14 @@ func countMaps(dir string) int {
 // file system and records the resources the database holds after every round (C15).
 func Steady(rec *Rec, id, fsname, dir string, rounds, nkeys int, seed int64) int {
 	rng := rand.New(rand.NewSource(seed))
+	// every 4th run: keys that share their low hash bits (bucket chains with overflow buckets) and a
+	// rotating key set (a deleted key is replaced by a NEW one): the index must not grow with history either
+	var pool []string
+	collide := (seed/6)%2 == 1
+	if collide {
+		ks := PinSeed(uint32(0x3c6ef372 + seed))
+		pool = ks.InClass(3, uint32(seed), 3*nkeys+60)
+	}
 	cfg := Cfg{FS: fsname, MaxSeg: 4096, MinSeg: 1, MinFrag: 0.3, Strict: true}
 	root := RootFS(fsname)
 	s := NewSess(rec, cfg, root, dir, id, Ev{"run": Ev{"cmd": "steady", "rounds": rounds, "keys": nkeys, "seed": seed}})
@@ -49,6 +57,35 @@ func Steady(rec *Rec, id, fsname, dir string, rounds, nkeys int, seed int64) int
 	for r := 1; r <= rounds; r++ {
 		for i := 0; i < 2*nkeys; i++ {
 			k := fmt.Sprintf("s%03d", rng.Intn(nkeys))
+			if collide {
+				// one key out, a new one in
+				if len(live) >= nkeys {
+					var old string
+					n := rng.Intn(len(live))
+					for x := range live {
+						if n == 0 {
+							old = x
+							break
+						}
+						n--
+					}
+					if s.Do(Op{Op: "del", K: old}) != nil {
+						return n
+					}
+					delete(live, old)
+				}
+				k = pool[rng.Intn(len(pool))]
+				for live[k] != 0 {
+					k = pool[rng.Intn(len(pool))]
+				}
+				vl := 50 + rng.Intn(100)
+				if s.Do(Op{Op: "put", K: k, V: fmt.Sprintf("r%d_%d_", r, i), VL: vl}) != nil {
+					return n
+				}
+				live[k] = 10 + len(k) + vl
+				n++
+				continue
+			}
 			// (half of the runs never delete: a delete record makes compaction take every older segment
 			// along, which hides segments that are never picked on their own account)
 			if (seed/3)%2 == 0 && rng.Intn(4) == 0 {
